@@ -980,6 +980,14 @@ func (o *ovsdbClient) monitor(ctx context.Context, cookie MonitorCookie, reconne
 	var err error
 	var tableUpdates interface{}
 
+	// updates that arrive from now on might be handled before the reply of
+	// this monitor has been applied to the cache: defer them until then, also
+	// when this is not the first monitor
+	db.cacheMutex.Lock()
+	wasDeferring := db.deferUpdates
+	db.deferUpdates = true
+	db.cacheMutex.Unlock()
+
 	var lastTransactionFound bool
 	switch monitor.Method {
 	case ovsdb.MonitorRPC:
@@ -1003,6 +1011,15 @@ func (o *ovsdbClient) monitor(ctx context.Context, cookie MonitorCookie, reconne
 	}
 
 	if err != nil {
+		if !wasDeferring {
+			// no reply to wait for: apply what has been deferred meanwhile
+			db.cacheMutex.Lock()
+			flushErr := db.flushDeferredUpdates(cookie)
+			db.cacheMutex.Unlock()
+			if flushErr != nil {
+				return flushErr
+			}
+		}
 		if err == rpc2.ErrShutdown {
 			return ErrNotConnected
 		}
@@ -1052,6 +1069,13 @@ func (o *ovsdbClient) monitor(ctx context.Context, cookie MonitorCookie, reconne
 	}
 
 	// populate any deferred updates
+	return db.flushDeferredUpdates(cookie)
+}
+
+// flushDeferredUpdates stops deferring updates and applies the deferred ones
+// to the cache. Must be called with the cache mutex held.
+func (db *database) flushDeferredUpdates(cookie MonitorCookie) error {
+	var err error
 	db.deferUpdates = false
 	for _, update := range db.deferredUpdates {
 		if update.updates != nil {
@@ -1066,7 +1090,9 @@ func (o *ovsdbClient) monitor(ctx context.Context, cookie MonitorCookie, reconne
 			}
 		}
 		if len(update.lastTxnID) > 0 {
-			db.monitors[cookie.ID].LastTransactionID = update.lastTxnID
+			if monitor, ok := db.monitors[cookie.ID]; ok {
+				monitor.LastTransactionID = update.lastTxnID
+			}
 		}
 	}
 	// clear deferred updates for next time
